@@ -767,7 +767,7 @@ def setup(ctx):
 
 # ---------------------------------------------------------------- plan
 EXPORT_FEATURES = ("chords", "rests", "ties", "graces", "tuplets", "multivoice", "multistaff", "pickup", "ts_changes",
-                   "keys", "clefs")
+                   "keys", "clefs", "div_changes")
 BATCH = 16
 
 
